@@ -1001,6 +1001,9 @@ func planC16(t *testing.T, tier string, seed uint64) ([]RunSpec, error) {
 			s.Workload = "c16/history-faultfree"
 		}
 		s.Sim = swarm(seed, i)
+		if i%5 == 4 {
+			s.Sim = withPCT(s.Sim, seed, i)
+		}
 		s.Sim.POther = 1 // operations, arguments and modes are drawn uniformly
 		s.Seed = runSeed(seed, i)
 		plan = append(plan, s)
